@@ -228,8 +228,12 @@ CHECKS = {
         "equals the time-independent one wherever its Lambda_m do (last index); the Lindblad operator form is the GKSL dissipator; the "
         "repaired tensor-index walk of time-local propagation never leaves the stored range and agrees with the pinned one below the "
         "cut-off, which ran off the end (witness). Two fix: commits: the index walk (IndexError in tensor form with a cut-off time) and "
-        "the time-dependent operator form not being presented in the current basis. Validated only: the analytic pure-dephasing limit "
-        "exp(-i w t - g(t)) for uncoupled sites (5e-3 at a 1 fs step); that FITPACK antiderivatives vanish at the lower limit.",
+        "the time-dependent operator form not being presented in the current basis. For uncoupled sites (diagonal Hamiltonian, K_m, "
+        "Lambda_m; checked on the real site-basis operator form) the populations never move and every matrix element of every stored "
+        "state is the propagation of a scalar multiplied per refined step by the truncated exponential of dt*coef (any order, refinement, "
+        "time-dependent operators, dephasing multiplier): the algebraic half of the exact limit. Validated only: that this scalar "
+        "propagation reproduces exp(-i w t - g(t)) (5e-3 at a 1 fs step: truncation and the quadrature behind Lambda_m(t)); that FITPACK "
+        "antiderivatives vanish at the lower limit.",
    note=TB + "All C07 theorems closed under the global context. Tie: apply() of real LindbladForm/RedfieldRelaxationTensor objects "
         "holding integer operators in both forms compared with = inside Coq; propagation in both forms against the exact-rational "
         "propagator model (1e-10); float monitors on random aggregates: both forms inside/outside basis contexts (apply and propagate, "
